@@ -147,6 +147,8 @@ func (o *Oracle) CreateResponseTx(gasForResponse int64, vub uint32, resp *transa
 	netFee, sizeDelta := fee.Calculate(o.Chain.GetBaseExecFee(), tx.Scripts[1].VerificationScript)
 	tx.NetworkFee += netFee
 	size += sizeDelta
+	// The ledger demands the attribute's fee (if Policy has one set) as well.
+	tx.NetworkFee += o.Chain.CalculateAttributesFee(tx)
 
 	currNetFee := tx.NetworkFee + int64(size)*o.Chain.FeePerByte()
 	if currNetFee > gasForResponse {
